@@ -163,6 +163,9 @@ pub struct NodeCtx {
     pub hbtrack: BTreeMap<ChitchatId, (u64, u64, u64)>,
     /// per member: intervals between consecutive fresh reports since the last evaluation that found it dead
     pub streak: BTreeMap<ChitchatId, Vec<u64>>,
+    /// members this node removed (node GC / remove_node) and the heartbeat their copy had then —
+    /// a harness-side record, independent of the implementation's own memory
+    pub removed_hb: BTreeMap<ChitchatId, u64>,
     pub watch_rx: watch::Receiver<BTreeMap<ChitchatId, NodeState>>,
     _seeds_tx: watch::Sender<HashSet<std::net::SocketAddr>>,
 }
@@ -413,6 +416,14 @@ impl Exec {
                 }
             };
         }
+        if head == "poolcase" {
+            let args: Vec<Sx> = cmd.list().unwrap()[1..].to_vec();
+            return match catch_unwind(AssertUnwindSafe(|| self.poolcase(&args))) {
+                Ok(Some(v)) => v,
+                Ok(None) => vec![bad("poolcase")],
+                Err(_) => vec![("(nop)".to_string(), format!("(harness-panic {})", take_panic()))],
+            };
+        }
         if head == "datagram" || head == "wirecase" || head == "mtusweep" {
             let args: Vec<Sx> = cmd.list().unwrap()[1..].to_vec();
             if self.poisoned {
@@ -437,6 +448,85 @@ impl Exec {
             };
         }
         vec![self.step1(cmd, &head)]
+    }
+
+    /// `(poolcase nlive ndead seedkind rounds)`: the real server loop with known live and dead peers;
+    /// every gossip round's targets are checked against the pools (C17), by the monitor and — as a
+    /// `selcheck` line — by the model.
+    fn poolcase(&mut self, a: &[Sx]) -> Option<Vec<(String, String)>> {
+        use crate::server_suite::{me_addr, peer_addr, run_pool};
+        use std::net::SocketAddr;
+        let nlive = a.first()?.nat()?;
+        let ndead = a.get(1)?.nat()?;
+        let seed_kind = a.get(2)?.nat()?;
+        let rounds = a.get(3)?.nat()?;
+        let short_grace = a.get(4).and_then(|x| x.nat()).unwrap_or(0) == 1;
+        let name = |x: &SocketAddr| -> u64 {
+            if *x == me_addr() {
+                return 100;
+            }
+            for k in 1..=(nlive + ndead) {
+                if *x == peer_addr(k) {
+                    return k;
+                }
+            }
+            200
+        };
+        let mut out = Vec::new();
+        for (ri, r) in run_pool(nlive, ndead, seed_kind, rounds, short_grace).iter().enumerate() {
+            let pool: &Vec<SocketAddr> = if r.live.is_empty() { &r.peers } else { &r.live };
+            let m = pool.len().min(3);
+            let t = &r.targets;
+            let nodes: Vec<SocketAddr> = t.iter().take(m).cloned().collect();
+            let rest: Vec<SocketAddr> = t.iter().skip(m).cloned().collect();
+            let (dead_t, seed_t): (Option<SocketAddr>, Option<SocketAddr>) = match rest.len() {
+                0 => (None, None),
+                1 => {
+                    if r.dead.contains(&rest[0]) || !r.seeds.contains(&rest[0]) {
+                        (Some(rest[0]), None)
+                    } else {
+                        (None, Some(rest[0]))
+                    }
+                }
+                _ => (Some(rest[0]), Some(rest[1])),
+            };
+            // C17, stated on the observed round
+            let distinct: HashSet<&SocketAddr> = nodes.iter().collect();
+            let mut why: Option<String> = None;
+            if t.contains(&me_addr()) {
+                why = Some("the node gossiped with itself".to_string());
+            } else if rest.len() > 2 || nodes.len() != m || distinct.len() != nodes.len() || nodes.iter().any(|n| !pool.contains(n)) {
+                why = Some(format!("targets {:?}: the first {m} are not distinct members of the pool {:?} followed by at most one dead peer and one seed", t, pool));
+            } else if dead_t.map(|x| !r.dead.contains(&x)).unwrap_or(false) {
+                why = Some(format!("target {:?} is neither in the pool nor a dead peer", dead_t));
+            } else if seed_t.map(|x| !r.seeds.contains(&x)).unwrap_or(false) {
+                why = Some(format!("target {:?} is not a seed", seed_t));
+            } else if r.live.is_empty() && !r.seeds.is_empty() && seed_t.is_none() && !nodes.iter().any(|n| r.seeds.contains(n)) {
+                why = Some("no live peer and a seed exists, but no seed was contacted".to_string());
+            } else if r.dead.len() > r.live.len() && dead_t.is_none() {
+                why = Some(format!("{} dead peers outnumber {} live ones but no dead peer was contacted", r.dead.len(), r.live.len()));
+            } else if r.non_syn > 0 {
+                why = Some("a gossip round sent something other than SYNs".to_string());
+            }
+            if let Some(w) = why {
+                self.monitor_hit("C17", "round-targets", &format!("round {ri} (live {:?}, dead {:?}, seeds {:?}): {w}", r.live, r.dead, r.seeds));
+            }
+            let set = |v: &Vec<SocketAddr>| {
+                let mut x: Vec<u64> = v.iter().map(&name).collect();
+                x.sort();
+                x.dedup();
+                plist("", x.iter().map(|k| k.to_string()))
+            };
+            let mut ns: Vec<u64> = nodes.iter().map(&name).collect();
+            ns.sort();
+            let o = |x: Option<SocketAddr>| x.map(|v| name(&v).to_string()).unwrap_or("none".to_string());
+            let l = plist(
+                "selcheck",
+                [set(&r.peers), set(&r.live), set(&r.dead), set(&r.seeds), "(counter 0 0)".to_string(), plist("", ns.iter().map(|x| x.to_string())), o(dead_t), o(seed_t)],
+            );
+            out.push((l, "(sel ok)".to_string()));
+        }
+        Some(out)
     }
 
     /// `(handshake a b)`: SYN, SYN-ACK, ACK between a and b with nothing lost (not through the soup).
@@ -941,6 +1031,47 @@ impl Exec {
         false
     }
 
+    /// Heartbeats of all copies held by a node.
+    fn copy_heartbeats(&self, slot: u64) -> BTreeMap<ChitchatId, u64> {
+        match self.nodes.get(&slot) {
+            Some(ctx) => ctx.cc.node_states().iter().map(|(id, ns)| (id.clone(), ns.heartbeat().into())).collect(),
+            None => BTreeMap::new(),
+        }
+    }
+
+    /// Records the members that disappeared from a node since `before`.
+    fn note_removed(&mut self, slot: u64, before: &BTreeMap<ChitchatId, u64>) {
+        let Some(ctx) = self.nodes.get_mut(&slot) else { return };
+        for (id, hb) in before {
+            if ctx.cc.node_state(id).is_none() {
+                ctx.removed_hb.insert(id.clone(), *hb);
+            }
+        }
+    }
+
+    /// C12 / C18: a removed member is recreated only by gossip carrying a heartbeat strictly higher
+    /// than the one known at removal — never by the catch-up entry point.
+    fn check_recreated(&mut self, slot: u64, by_catchup: bool) {
+        let Some(ctx) = self.nodes.get_mut(&slot) else { return };
+        let mut hits: Vec<(&'static str, String)> = Vec::new();
+        let ids: Vec<ChitchatId> = ctx.removed_hb.keys().cloned().collect();
+        for id in ids {
+            let Some(ns) = ctx.cc.node_state(&id) else { continue };
+            let known = ctx.removed_hb.remove(&id).unwrap_or(0);
+            let now: u64 = ns.heartbeat().into();
+            if by_catchup {
+                let d = format!("member {:?} was removed (heartbeat {known} at removal) and was recreated by the catch-up entry point", id.node_id);
+                hits.push(("C18", d.clone()));
+                hits.push(("C12", d));
+            } else if now <= known {
+                hits.push(("C12", format!("member {:?} was removed with heartbeat {known} and has been recreated by gossip carrying heartbeat {now}", id.node_id)));
+            }
+        }
+        for (p, d) in hits {
+            self.monitor_hit(p, "recreated", &d);
+        }
+    }
+
     pub fn monitor_hit(&mut self, property: &str, signature: &str, detail: &str) {
         self.hits.push(format!(
             "{{\"property\": \"{}\", \"signature\": \"{}\", \"case\": \"{}\", \"detail\": {:?}}}",
@@ -1098,7 +1229,8 @@ impl Exec {
                 // initial key-values fired no listener (none was subscribed yet); the model reports
                 // them, so reconstruct them from the state for comparison.
                 let init_events: Vec<(ChitchatId, String, String)> = Vec::new();
-                let ctx = NodeCtx { calls: Arc::new(Mutex::new(Vec::new())), handles: BTreeMap::new(), active: BTreeMap::new(), refmap: RefMap::default(), grace, cc, id: id.clone(), events, callbacks, publishes: 0, fd_params: Some((f[0].nat()?, f[1].nat()?, f[4].nat()?)), max_interval: f[3].nat()?, pred: pred_spec.clone(), hbtrack: BTreeMap::new(), streak: BTreeMap::new(), watch_rx, _seeds_tx: seeds_tx };
+                let ctx = NodeCtx { calls: Arc::new(Mutex::new(Vec::new())), handles: BTreeMap::new(), active: BTreeMap::new(), refmap: RefMap::default(), grace, cc, id: id.clone(), events, callbacks, publishes: 0, fd_params: Some((f[0].nat()?, f[1].nat()?, f[4].nat()?)), max_interval: f[3].nat()?, pred: pred_spec.clone(), removed_hb: BTreeMap::new(),
+                    hbtrack: BTreeMap::new(), streak: BTreeMap::new(), watch_rx, _seeds_tx: seeds_tx };
                 self.nodes.insert(slot, ctx);
                 self.resync_ref(slot);
                 self.extend_ledger(slot);
@@ -1169,6 +1301,7 @@ impl Exec {
                     })
                     .collect();
                 let ctx = self.nodes.get_mut(&slot)?;
+                ctx.removed_hb.remove(&id);
                 let r = catch_unwind(AssertUnwindSafe(|| {
                     let ns = verif::cc_node_state_mut_or_init(&mut ctx.cc, &id);
                     let keys: Vec<String> =
@@ -1258,6 +1391,7 @@ impl Exec {
             }
             "live" => {
                 let slot = a.first()?.nat()?;
+                let hbs_before = self.copy_heartbeats(slot);
                 let _g = self.rt.enter();
                 let ctx = self.nodes.get_mut(&slot)?;
                 let r = catch_unwind(AssertUnwindSafe(|| verif::cc_update_nodes_liveness(&mut ctx.cc)));
@@ -1265,6 +1399,9 @@ impl Exec {
                     self.poisoned = true;
                     return Some((line, p_panic(&take_panic())));
                 }
+                drop(_g);
+                self.note_removed(slot, &hbs_before);
+                let _g = self.rt.enter();
                 let mut sched: Vec<ChitchatId> =
                     self.nodes.get(&slot)?.cc.scheduled_for_deletion_nodes().cloned().collect();
                 sched.sort();
@@ -1608,6 +1745,7 @@ impl Exec {
                 }));
                 drop(_g);
                 if r.is_ok() {
+                    self.check_recreated(slot, true);
                     let after = self.snapshot_copy(slot, &id);
                     let live_after: BTreeSet<ChitchatId> = self.nodes.get(&slot)?.cc.live_nodes().cloned().collect();
                     let mut v: Option<String> = None;
@@ -1672,7 +1810,9 @@ impl Exec {
                     let node = self.p_node(slot);
                     return Some((line, plist("ok", [node])));
                 }
+                let hbs_before = self.copy_heartbeats(slot);
                 verif::cc_remove_node(&mut self.nodes.get_mut(&slot)?.cc, &id);
+                self.note_removed(slot, &hbs_before);
                 let node = self.p_node(slot);
                 Some((line, plist("ok", [node])))
             }
@@ -1703,6 +1843,7 @@ impl Exec {
                 let _g = self.rt.enter();
                 verif::cc_report_heartbeat(&mut self.nodes.get_mut(&slot)?.cc, &id, hb);
                 drop(_g);
+                self.check_recreated(slot, false);
                 self.track_heartbeat(slot, &id, hb);
                 self.sync_tracker(slot);
                 let node = self.p_node(slot);
@@ -1825,6 +1966,32 @@ impl Exec {
                         ),
                     ],
                 );
+                // C06 (read API), stated on the reference map of the node's own namespace
+                let mut c06: Option<String> = None;
+                if id == ctx.id {
+                    let visible: Vec<(&String, &(String, u64, u8, u64))> = ctx.refmap.kvs.iter().filter(|(_, e)| e.2 != 1).collect();
+                    for k in &keys {
+                        let exp = visible.iter().find(|(kk, _)| *kk == k).map(|(_, e)| e.0.as_str());
+                        if ns.get(k) != exp || ns.contains_key(k) != exp.is_some() {
+                            c06 = Some(format!("get({k:?}) = {:?}, contains_key = {} but the reference map gives {:?}", ns.get(k), ns.contains_key(k), exp));
+                        }
+                    }
+                    let kvs: Vec<(&str, &str)> = ns.key_values().collect();
+                    let exp_kvs: Vec<(&str, &str)> = visible.iter().map(|(k, e)| (k.as_str(), e.0.as_str())).collect();
+                    if kvs != exp_kvs {
+                        c06 = Some(format!("key_values() = {:?} but the reference map gives {:?}", &kvs[..kvs.len().min(6)], &exp_kvs[..exp_kvs.len().min(6)]));
+                    }
+                    for p in &pfxs {
+                        let got: Vec<(&str, &str, u64)> = ns.iter_prefix(p).map(|(k, vv)| (k, vv.value.as_str(), vv.version)).collect();
+                        let exp: Vec<(&str, &str, u64)> = visible.iter().filter(|(k, _)| k.starts_with(p.as_str())).map(|(k, e)| (k.as_str(), e.0.as_str(), e.1)).collect();
+                        if got != exp {
+                            c06 = Some(format!("iter_prefix({p:?}) = {:?} but the reference map gives {:?}", &got[..got.len().min(6)], &exp[..exp.len().min(6)]));
+                        }
+                    }
+                }
+                if let Some(d) = c06 {
+                    self.monitor_hit("C06", "read-api", &d);
+                }
                 Some((line, out))
             }
             "setcopyq" => {
@@ -2133,6 +2300,8 @@ impl Exec {
         let cb_before = ctx.callbacks.load(Ordering::SeqCst);
         let gc_before: BTreeMap<ChitchatId, u64> =
             ctx.cc.node_states().iter().map(|(id, ns)| (id.clone(), ns.last_gc_version())).collect();
+        // C05: the own heartbeat moves only through the node's own gossip activity
+        let own_hb_before: u64 = ctx.cc.node_state(&ctx.id).map(|ns| ns.heartbeat().into()).unwrap_or(0);
         // C15 (replicated writes): versions held before, for exactly the keys the delta mentions
         let mut held_before: Vec<(usize, usize, Option<u64>)> = Vec::new();
         let in_delta = match pm {
@@ -2240,6 +2409,18 @@ impl Exec {
                 );
                 if let Some(d) = c15 {
                     self.monitor_hit("C15", "missed-gossip-event", &d);
+                }
+                self.check_recreated(slot, false);
+                // C16: a rejection is terminal for the initiator
+                if matches!(pm, PMsg::BadCluster) && reply.is_some() {
+                    self.monitor_hit("C16", "badcluster-answered", "the node answered a BadCluster rejection with another message");
+                }
+                if let Some(ctx) = self.nodes.get(&slot) {
+                    let own_hb_after: u64 = ctx.cc.node_state(&ctx.id).map(|ns| ns.heartbeat().into()).unwrap_or(0);
+                    if own_hb_after != own_hb_before + 1 {
+                        let d = format!("processing a message moved the node's own heartbeat from {own_hb_before} to {own_hb_after} (its own activity accounts for exactly +1)");
+                        self.monitor_hit("C05", "own-heartbeat", &d);
+                    }
                 }
                 if let Some(d) = c20 {
                     self.monitor_hit("C20", "callback-count", &d);
@@ -2417,7 +2598,11 @@ impl Exec {
                 (l, plist("ok", [rest.to_string(), p_msg(&pm)]), Some(pm))
             }
             Ok((Err(_), _)) => (l, "(err)".to_string(), None),
-            Err(_) => (l, p_panic(&take_panic()), None),
+            Err(_) => {
+                let d = take_panic();
+                self.monitor_hit("C09", "decode-abort", &format!("decoding a {}-byte datagram aborted: {}", bytes.len(), &d[..d.len().min(160)]));
+                (l, p_panic(&d), None)
+            }
         }
     }
 }
